@@ -483,7 +483,8 @@ def _dead_else_raises(ctx):
             while isinstance(cur, ast.If):
                 t = cur.test
                 if (isinstance(t, ast.Call) and text(t.func) == "isinstance" and len(t.args) == 2
-                        and text(t.args[0]) == "frame" and isinstance(t.args[1], ast.Name)):
+                        and isinstance(t.args[0], ast.Name) and text(t.args[0]) == text(n.test.args[0] if isinstance(n.test, ast.Call) and n.test.args else t.args[0])
+                        and isinstance(t.args[1], ast.Name)):
                     tested.add(t.args[1].id)
                 else:
                     tested = None
@@ -503,11 +504,13 @@ def _dead_else_raises(ctx):
     src_ok = any(isinstance(n, ast.Compare) and isinstance(n.ops[0], ast.In) and text(n.comparators[0]) == "RESERVED_WITHOUT_ESCAPE"
                  for n in ast.walk(dr.node))
     for n in ast.walk(dr.node):
-        if isinstance(n, ast.If) and isinstance(n.test, ast.Compare) and text(n.test.left) == "reserved_byte":
+        if (isinstance(n, ast.If) and isinstance(n.test, ast.Compare) and isinstance(n.test.left, ast.Name) and len(n.test.comparators) == 1
+                and text(n.test.comparators[0]).startswith("Reserved.")):
+            var = n.test.left.id
             cur, tested = n, set()
             while isinstance(cur, ast.If):
                 t = cur.test
-                if (isinstance(t, ast.Compare) and len(t.ops) == 1 and isinstance(t.ops[0], ast.Eq) and text(t.left) == "reserved_byte"
+                if (isinstance(t, ast.Compare) and len(t.ops) == 1 and isinstance(t.ops[0], ast.Eq) and text(t.left) == var
                         and text(t.comparators[0]).startswith("Reserved.") and text(t.comparators[0])[9:] in members):
                     tested.add(members[text(t.comparators[0])[9:]].value)
                 else:
@@ -606,7 +609,7 @@ def r02_2(ctx):
     MAX = const(ctx, ASH, "MAX_BUFFER_SIZE", int)
     names = {m.value: n for n, m in repo.cls(ASH, "Reserved").members().items()}
     for disc in (False, True):
-        px = PX(repo, models=models, inline=lambda fr, aw: False, while_bound=1,
+        px = PX(repo, models=models, inline=lambda fr, aw: False, while_bound=1, refine_membership=True, loop_iters=(0, 1, 2),
                 facts={f"({MAX} < len(B))": False, "(len(B) < %d)" % (MAX + 1): True})
 
         def setup():
@@ -662,9 +665,23 @@ def r02_2(ctx):
                         continue
                     cur = "P.after"
                     scen += ",flag-found"
-                if not nx:
-                    raise AnalysisError("scanner does not select the first reserved byte through next(...) in a recognised form")
-                o = nx[0].extra
+                # which reserved byte did the scanner select on this path, and under which index symbol?
+                idx = "i"
+                if nx:
+                    o = nx[0].extra
+                else:
+                    picks = [(t, v) for t, v in p.assumes if t.startswith("member:")]
+                    chosen = [(t, v) for t, v in picks if v is not None]
+                    if not picks and not any(e.kind == "iterate" for e in p.events):
+                        raise AnalysisError("scanner does not select the first reserved byte in a recognised form (next(...) over the buffer, or a loop over it)")
+                    if chosen:
+                        bt = chosen[-1][0].split(":")[1]
+                        idx = bt[:-2] + ".0" if bt.endswith(".1") else bt
+                        o = (Sym(idx), chosen[-1][1])
+                        if len(chosen) > 1:
+                            raise AnalysisError("scanner selects more than one byte per iteration")
+                    else:
+                        o = "raises StopIteration"
                 if isinstance(o, str) and o.startswith("raises"):
                     scen += ",no-reserved"
                     if unst or dlv or wr or pops or buf != Sym(cur) or (flag is not False):
@@ -673,18 +690,18 @@ def r02_2(ctx):
                     r = names[o[1].value]
                     seen_bytes.add(o[1].value)
                     scen += f",{r}"
-                    rest = Sym(f"{cur}[(i + 1):None]")
+                    rest = Sym(f"{cur}[({idx} + 1):None]")
                     if r == "FLAG":
-                        empty = assumed.get(f"{cur}[None:i]") is False
+                        empty = assumed.get(f"{cur}[None:{idx}]") is False
                         if buf != rest:
-                            bad = _edit_verdict(buf, cur, rest)
+                            bad = _edit_verdict(buf, cur, rest, idx)
                         elif flag is not False:
                             bad = f"discard flag is {flag!r} after a FLAG"
                         elif empty:
                             scen += ",empty-frame"
                             if unst or prs or dlv or wr:
                                 bad = "empty frame (consecutive FLAGs) is not ignored"
-                        elif len(unst) != 1 or unst[0].args[:1] != (Sym(f"{cur}[None:i]"),):
+                        elif len(unst) != 1 or unst[0].args[:1] != (Sym(f"{cur}[None:{idx}]"),):
                             bad = f"frame bytes handed to unstuffing are {[e.args for e in unst]!r}, must be the bytes before the FLAG"
                         else:
                             failed = str(unst[0].extra).startswith("raises") or (prs and str(prs[0].extra).startswith("raises"))
@@ -710,14 +727,14 @@ def r02_2(ctx):
                                         bad = f"NAK for an unparsable frame has prefix {pre!r}, must be (CANCEL,)"
                     elif r in ("CANCEL", "SUBSTITUTE"):
                         if buf != rest:
-                            bad = _edit_verdict(buf, cur, rest)
+                            bad = _edit_verdict(buf, cur, rest, idx)
                         elif unst or dlv or wr:
                             bad = f"{r} triggers parsing/delivery/writes"
                         elif flag is not (r == "SUBSTITUTE"):
                             bad = f"discard-until-flag is {flag!r} after {r}"
                     else:  # XON / XOFF
-                        popped = len(pops) == 1 and pops[0].callee == f"{cur}.pop" and pops[0].args[:1] == (Sym("i"),)
-                        sliced = buf == Sym(f"({cur}[None:i] + {cur}[(i + 1):None])")
+                        popped = len(pops) == 1 and pops[0].callee == f"{cur}.pop" and pops[0].args[:1] == (Sym(idx),)
+                        sliced = buf == Sym(f"({cur}[None:{idx}] + {cur}[({idx} + 1):None])")
                         if not ((popped and buf == Sym(cur)) or sliced):
                             bad = f"{r}: buffer edit is {buf!r} / {[e.brief() for e in pops]}, must remove only that byte"
                         elif unst or dlv or wr or flag is not False:
@@ -733,11 +750,12 @@ def r02_2(ctx):
     ctx.sample({"reserved_bytes": sorted(names[m.value] for m in rwe)})
 
 
-def _edit_verdict(buf, cur, rest):
+def _edit_verdict(buf, cur, rest, idx="i"):
     import re
 
     t = getattr(buf, "tag", repr(buf))
-    if re.fullmatch(re.escape(cur) + r"\[(None|i|\(i [+-] \d+\)):(None|i|\(i [+-] \d+\))\]", t) or t == cur:
+    i = re.escape(idx)
+    if re.fullmatch(re.escape(cur) + r"\[(None|" + i + r"|\(" + i + r" [+-] \d+\)):(None|" + i + r"|\(" + i + r" [+-] \d+\))\]", t) or t == cur:
         return f"buffer after the reserved byte is {t}, must be {rest.tag} (everything after that byte)"
     return "UNRECOGNISED"
 
